@@ -243,6 +243,16 @@ class Runner:
         self.exhaustive = None
         self.rule = ""
 
+    def corpus(self):
+        """minimised past failures for this property (replayed first by the corr modules)"""
+        d = os.path.join(VERIF, "corpus", self.prop)
+        out = []
+        if os.path.isdir(d):
+            for f in sorted(os.listdir(d)):
+                if f.endswith(".json"):
+                    out.append(json.load(open(os.path.join(d, f))))
+        return out
+
     # -- counting
     def case(self, key, desc=None, nontrivial=True, tags=()):
         self.evaluations += 1
